@@ -71,7 +71,17 @@ struct Env {
 }
 
 fn build_env() -> Env {
-    let conv = Converter::bundled();
+    build_env_with(Converter::bundled())
+}
+
+/// bundled units + units/spanish.toml (a layer that extends the SI base units)
+fn spanish_converter() -> Option<Converter> {
+    let src = std::fs::read_to_string("/repo/units/spanish.toml").ok()?;
+    let layer: cooklang::convert::UnitsFile = toml::from_str(&src).ok()?;
+    cooklang::convert::ConverterBuilder::new().with_units_file(cooklang::convert::UnitsFile::bundled()).ok()?.with_units_file(layer).ok()?.finish().ok()
+}
+
+fn build_env_with(conv: Converter) -> Env {
     let table = si_table();
     let mut units = Vec::new();
     let mut si = Vec::new();
@@ -497,6 +507,39 @@ pub fn run(tier: Tier) {
     });
     if c.has_violations() {
         return;
+    }
+    // the same pair law on a layered converter (bundled + units/spanish.toml)
+    if let Some(sp) = spanish_converter() {
+        let e2 = Arc::new(build_env_with(sp));
+        let (nu2, nv2) = (e2.units.len(), 6usize);
+        let e3 = e2.clone();
+        sweep("C09 pairs on the layered converter (bundled + spanish)", (nu2 * nu2 * nv2) as u64, move |idx| {
+            let (i, j, k) = ((idx as usize / nv2) / nu2, (idx as usize / nv2) % nu2, idx as usize % nv2);
+            vcase("pair (spanish layer)", e3.units[i].symbol(), e3.units[j].symbol(), &format!("{:?}", e3.values[k]))
+        }, |idx, local| {
+            let (i, j, k) = ((idx as usize / nv2) / nu2, (idx as usize / nv2) % nu2, idx as usize % nv2);
+            let mut out = Vec::new();
+            if e2.units[i].physical_quantity == e2.units[j].physical_quantity {
+                check_pair(&e2, i, j, e2.values[k], &mut out, local);
+                // every key of the unit converts like its symbol
+                if k == 1 {
+                    for key in keys(&e2.units[i]) {
+                        let r = e2.conv.convert(ConvertValue::Number(1.0), ConvertUnit::Key(&key), ConvertTo::Unit(ConvertUnit::Unit(&e2.units[j])));
+                        let d = e2.conv.convert(ConvertValue::Number(1.0), ConvertUnit::Unit(&e2.units[i]), ConvertTo::Unit(ConvertUnit::Unit(&e2.units[j])));
+                        if format!("{:?}", r.map(|x| x.0)) != format!("{:?}", d.map(|x| x.0)) {
+                            out.push(Violation::new("a key of a unit converts differently from the unit", format!("key {key:?} of {} -> {}", e2.units[i].symbol(), e2.units[j].symbol()), vcase("pair (spanish layer)", &key, e2.units[j].symbol(), "1.0")));
+                        }
+                    }
+                }
+                local.nontrivial += 1;
+            }
+            out
+        });
+        if c.has_violations() {
+            return;
+        }
+    } else {
+        c.note("units/spanish.toml could not be layered over the bundled units; the layered-converter part was skipped");
     }
     let e = env.clone();
     sweep("C09 failure matrix and ScaledRecipe::convert", 2, |i| json!({"kind": if i == 0 { "failure matrix" } else { "recipes" }}), |idx, local| {
